@@ -6,7 +6,7 @@
    frames (opcodes, FIN/continuation discipline, minimal lengths, control <= 125, mask per direction). *)
 From Coq Require Import String List NArith Bool.
 From Cfg Require Import Gen.WsConst Model.WsUtf8 Model.WsClose Model.WsFrame Model.WsRead Model.WsReadSpec Model.WsWrite Model.WsWriteSpec
-     Proofs.WsReadB Proofs.WsReadC Proofs.WsWriteA Proofs.WsWriteB Proofs.WsWriteC Proofs.WsWriteD Proofs.WsWriteZ.
+     Proofs.WsReadB Proofs.WsReadC Proofs.WsWriteA Proofs.WsWriteB Proofs.WsWriteC Proofs.WsWriteD Proofs.WsWriteZ Proofs.WsWriteG Proofs.WsWriteJ.
 Import ListNotations.
 Open Scope N_scope.
 
@@ -75,8 +75,8 @@ Theorem C30_frame_decodes : forall ok infl masked key (fin : bool) op payload re
     | Some f => op = 0 /\ f = (typ, false, acc, total)
     end ->
     total + N.of_nat (length payload) < two63 ->
-    spec_frame (strict ok) (mkScfg masked false 0 0) infl frag (enc_frame masked key (b0_of op fin) payload ++ rest)
-    = if fin then complete (strict ok) (mkScfg masked false 0 0) infl typ false (acc ++ payload) rest
+    spec_frame (strict ok) (mkScfg masked false 0 0 no_avail) infl frag (enc_frame masked key (b0_of op fin) payload ++ rest)
+    = if fin then complete (strict ok) (mkScfg masked false 0 0 no_avail) infl typ false (acc ++ payload) rest
       else FCont [] (Some (typ, false, acc ++ payload, total + N.of_nat (length payload))) rest.
 Proof. exact decode_data_frame. Qed.
 Print Assumptions C30_frame_decodes.
@@ -91,17 +91,46 @@ Theorem C30_trunc_writer : forall zs held ds h,
 Proof. exact trunc_all_spec. Qed.
 Print Assumptions C30_trunc_writer.
 
-(* PARTIAL for compressed messages.  Proved: when the flate stream ends with a sync flush
-   (00 00 ff ff), the frames carry exactly the stream without that tail (RFC 7692 7.2.1) and
-   flateWriteWrapper.Close finds the tail.  NOT proved in Coq: that the compressed frames (RSV1 on
-   the first one) are decoded and inflated back to the message - that needs compress/flate's
-   correctness and the generalisation of C30_frame_decodes to RSV1; it is checked by the
-   correspondence (real flate, real peer, strict decoder with the driver's inflate table). *)
-Theorem C30_compressed_frames_partial : forall zs body ds h,
+(* when the flate stream ends with a sync flush (00 00 ff ff), the frames carry exactly the stream
+   without that tail (RFC 7692 7.2.1) and flateWriteWrapper.Close finds the tail *)
+Theorem C30_compressed_frames : forall zs body ds h,
     concat zs = body ++ flate_sync_tail -> trunc_all [] zs = (ds, h) ->
     concat ds = body /\ h = flate_sync_tail.
 Proof. exact trunc_sync_flush. Qed.
-Print Assumptions C30_compressed_frames_partial.
+Print Assumptions C30_compressed_frames.
+
+(* The round trip WITH write compression, under the stated contract of compress/flate
+   (deflate = what flate.Writer emits for Write(x)+Flush(); inflate = RFC 7692 7.2.2 on the peer):
+       forall x, exists body, deflate x = body ++ 00 00 ff ff  /\  inflate body = Some x.
+   For ALL sequences of operations on a connection with permessage-deflate negotiated
+   (wc_compress cfg), write compression switched on and off between messages (the flag each
+   operation is tagged with; centrifuge does this through CompressionMinSize), every chunking zs of
+   the flate output, all buffer sizes, keys and both roles: the strict decoder with the extension
+   negotiated reads exactly the messages whose write returned nil, compressed ones (RSV1 on their
+   first frame, fragmented by the write buffer) inflated back to the original bytes. *)
+Theorem C30_roundtrip_compressed : forall ok deflate inflate,
+    (forall x, exists body, deflate x = body ++ flate_sync_tail /\ inflate body = Some x) ->
+    forall cfg, c_maxFrameHeaderSize < wc_buf cfg ->
+    forall ops keys,
+      keys_ok keys -> Forall (fun to => op_ok_flate ok cfg deflate (fst to) (snd to)) ops ->
+      spec_read (strict ok) (peer_cfg cfg) inflate (fst (write_all_t cfg keys false ops))
+      = close_at_end (ops_events (map snd ops) (map is_none (snd (write_all_t cfg keys false ops)))).
+Proof.
+  intros ok deflate inflate Hf cfg Hcap ops keys Hk Hok.
+  exact (roundtrip_flate ok deflate inflate Hf cfg Hcap ops keys Hk Hok).
+Qed.
+Print Assumptions C30_roundtrip_compressed.
+
+(* the same with the contract given per message (any chunks zs whose concatenation ends in a sync
+   flush and whose body the decoder's inflate maps back to the message) *)
+Theorem C30_roundtrip_mixed : forall ok infl cfg,
+    c_maxFrameHeaderSize < wc_buf cfg ->
+    forall ops keys,
+      keys_ok keys -> Forall (fun to => op_ok_t ok infl cfg (fst to) (snd to)) ops ->
+      spec_read (strict ok) (peer_cfg cfg) infl (fst (write_all_t cfg keys false ops))
+      = close_at_end (ops_events (map snd ops) (map is_none (snd (write_all_t cfg keys false ops)))).
+Proof. intros ok infl cfg Hcap ops keys Hk Hok. exact (roundtrip_t ok infl cfg Hcap ops keys Hk Hok). Qed.
+Print Assumptions C30_roundtrip_mixed.
 
 (* ------------------------------------------------------------------ non-vacuity *)
 
@@ -138,4 +167,13 @@ Example C30_ex_decoded :
   spec_read (strict is_valid_received_close_code) (peer_cfg ex_cfg_cli) (fun _ => None)
             (fst (write_all ex_cfg_cli [[1; 2; 3; 4]; [5; 6; 7; 8]] false ex_ops))
   = [SMsg 1 [72; 101; 108; 108; 111]; SPong [112]; SMsg 2 [1; 2; 3]; SEnd (OClosed 1000 [])].
+Proof. vm_compute. reflexivity. Qed.
+
+(* a compressed message: flate's output for "Hello" (RFC 7692 7.2.3.1) handed over in two chunks, client side *)
+Definition ex_z : list bytes := [[242; 72; 205]; [201; 201; 7; 0; 0; 0; 255; 255]].
+Example C30_ex_compressed_wire :
+  write_all_t (mkWcfg false 16 true) [[1; 2; 3; 4]; [5; 6; 7; 8]; [9; 9; 9; 9]; [1; 1; 1; 1]] false
+              [(true, OpZ 1 [72; 101; 108; 108; 111] ex_z); (false, OpMessage 2 [7])]
+  = ([65; 130; 1; 2; 3; 4; 243; 74;  0; 130; 5; 6; 7; 8; 200; 207;  0; 130; 9; 9; 9; 9; 192; 14;  128; 129; 1; 1; 1; 1; 1;
+      130; 129; 0; 0; 0; 0; 7], [None; None]).
 Proof. vm_compute. reflexivity. Qed.
